@@ -421,6 +421,7 @@ def _violation_selection(ctx, G, F):
              '`warn(str(V), type(V))` followed by fall-through; culprits begin with the checked object')
     # (a) the explanation entry point, interpreted
     _explanation_entry(ctx, F)
+    explanation_configuration(ctx, 'C03.R4')
     # (b) generated handlers, by interpreting the wrapper generator under the warn flags
     N = _wrap.names(ctx)
     W = _wrap.wrapgen(ctx)
@@ -812,3 +813,78 @@ def _diagnosis_short_circuit(ctx, V, F, RULE):
         F.stubs.clear()
         F.stubs.update(saved_stubs)
     ctx.floor(RULE, n, 14, 'compound validator shapes diagnosed')
+
+
+def explanation_configuration(ctx, RULE):
+    """The explanation path reads the hint under the configuration of the check (shared with C18: overrides and the numeric
+    tower must apply to the explainer's root hint exactly as they applied to the generated check)."""
+    from sa.fold import _WithValue
+    F = _gen.engines(ctx)[0].f
+    ERRMAIN = 'beartype._check.error.errmain'
+    em = ctx.repo.mod(ERRMAIN)
+    fn = F.const(ERRMAIN, 'get_hint_object_violation')
+    ctx.require(isinstance(fn, FuncVal), 'anchor vanished: get_hint_object_violation')
+    ctx.rule(RULE, 'the explanation path sanifies the root hint and builds its cause tree under the configuration the check ran '
+             'under (interpreted get_hint_object_violation: the configuration handed to sanify_hint_any and to the cause tree '
+             'is the caller\'s, not the default) — otherwise a hint rewritten by hint_overrides / is_pep484_tower is explained '
+             'as written and a rejection becomes a desynchronisation error')
+    seen = {}
+
+    class _Cause(AObj):
+        _track_attribute_stores = True
+
+        def __init__(self):
+            self.cause_str_or_none, self.pith = 'a cause', None
+
+    class _Tree(AObj):
+        def __init__(self, kw):
+            self.kw = kw
+
+        def find_cause(self):
+            c = _Cause()
+            c.exception_cls = self.kw.get('exception_cls')
+            return c
+
+    class _Exc(AObj):
+        def __call__(self, *a, **k):
+            return 'VIOLATION'
+    saved, saved_i, saved_b = dict(F.stubs), F.isinstance_hook, F.builtin_hook
+
+    def tree(e, a, k):
+        seen['tree-conf'] = k.get('conf')
+        seen['tree-hint'] = k.get('hint_curr')
+        return _Tree(k)
+
+    def sanify(e, a, k):
+        seen['sanify-conf'] = k.get('conf', 'NOT PASSED (the default configuration is used)')
+        return ('SANE', k.get('hint'))
+    F.stubs['beartype._check.cls.hint.tree.hinttreeerror.HintTreeError'] = tree
+    F.stubs['beartype._check.cls.hint.data.hintdataerror.HintDataError'] = lambda e, a, k: ('hint-data', a[0] if a else None)
+    F.stubs['beartype._check.convert.convmain.sanify_hint_any'] = sanify
+    F.stubs['beartype._util.error.utilerrwarn.warnings_ignored'] = lambda e, a, k: _WithValue(None)
+    for q in ('beartype._util.text.utiltextprefix.prefix_pith_value', 'beartype._util.text.utiltextrepr.represent_object',
+              'beartype._util.text.utiltextansi.color_hint', 'beartype._util.text.utiltextansi.strip_str_ansi',
+              'beartype._util.text.utiltextmunge.suffix_str_unless_suffixed', 'beartype._util.text.utiltextmunge.uppercase_str_char_first'):
+        F.stubs[q] = lambda e, a, k: 'text'
+    F.isinstance_hook = lambda o, c: True if isinstance(o, AObj) and 'CallData' in repr(c) else (saved_i(o, c) if saved_i else None)
+    F.builtin_hook = lambda n_, a, k: ('repr' if n_ == 'repr' and a and isinstance(a[0], AObj) else (saved_b(n_, a, k) if saved_b else NotImplemented))
+    vv = F.eval_in(ctx.repo.mod('beartype._conf.confenum'), ast.parse('BeartypeViolationVerbosity.DEFAULT', mode='eval').body)
+    conf = AConf(violation_door_type=_Exc(), violation_verbosity=vv, is_color=False)
+    old_default = F.patch_global(ERRMAIN, 'BEARTYPE_CONF_DEFAULT', AConf())
+    try:
+        try:
+            _call_function(F, fn, [], dict(call_curr=AObj(), conf=conf, hint=AObj(), obj='OBJ', exception_prefix='P '), 1)
+        except (_Abort, _Raise) as ex:
+            ctx.require(False, f'cannot interpret get_hint_object_violation: {ex}')
+        ctx.ob(RULE, 'explanation:sanifies-under-the-check-configuration', em.where(fn.node),
+               'sanify_hint_any receives the configuration of the check', seen.get('sanify-conf') is conf,
+               f'conf handed to sanify_hint_any: {seen.get("sanify-conf")!r}')
+        ctx.ob(RULE, 'explanation:cause-tree-under-the-check-configuration', em.where(fn.node),
+               'the cause tree is built with the configuration of the check on the sanified hint',
+               seen.get('tree-conf') is conf and isinstance(seen.get('tree-hint'), tuple) and isinstance(seen['tree-hint'][1], tuple)
+               and seen['tree-hint'][1][0] == 'SANE', f'conf {seen.get("tree-conf")!r}, hint {seen.get("tree-hint")!r}')
+    finally:
+        F.patch_global(ERRMAIN, 'BEARTYPE_CONF_DEFAULT', old_default)
+        F.isinstance_hook, F.builtin_hook = saved_i, saved_b
+        F.stubs.clear()
+        F.stubs.update(saved)
